@@ -215,6 +215,9 @@ def _exec_stmt(conn_box: list, st: str) -> str | None:
     """returns the observable result of one statement: None (nothing), 'E', 'r…', 'm…'"""
     import snowflake.connector
     try:
+        if st == "N-":      # opened without database/schema: every statement of the scenarios uses fully qualified names
+            conn_box[0] = snowflake.connector.connect()
+            return None
         if st[0] == "N":
             body, sp = (st[1:-1], st[-1]) if st[-1] in "ulm" else (st[1:], "l")
             d, s = body.split(".")
@@ -443,7 +446,10 @@ def _stress_round(args) -> dict:
                     return
                 # all threads auto-create the same database + schema, each spelling the names in its own letter case
                 spell = (str.lower, str.upper, str.capitalize, str.swapcase)[tid % 4]
-                c = snowflake.connector.connect(database=spell("newDb"), schema=spell("newS"))
+                if tid % 2 == 1:    # half of the sessions are opened without database/schema (all statements use qualified names)
+                    c = snowflake.connector.connect()
+                else:
+                    c = snowflake.connector.connect(database=spell("newDb"), schema=spell("newS"))
                 cur = c.cursor()
                 for n in range(ninserts):
                     cur.execute(f"insert into shared.s0.log (tid, n) values ({tid}, {n})")
@@ -467,6 +473,94 @@ def _stress_round(args) -> dict:
     return {"errs": errs, "hung": hung, "total": total, "distinct": distinct, "expect": nthreads * ninserts, "seed": seed}
 
 
+def _txconflict_round(spec) -> dict:
+    """two sessions (one thread each, statements handed over one at a time, so this is deterministic) with overlapping
+    explicit transactions inserting the same PRIMARY KEY value; every session keeps a ledger of what it was TOLD"""
+    import queue
+    import fakesnow
+    import snowflake.connector
+    told: dict[str, str] = {}
+    with fakesnow.patch():
+        main = snowflake.connector.connect(database="shared", schema="s0")
+        main.cursor().execute("create table shared.s0.pk (k int primary key, who varchar)")
+        conns = {n: snowflake.connector.connect(database="shared", schema="s0") for n in "ab"}
+        inbox = {n: queue.Queue() for n in "ab"}
+        outbox: queue.Queue = queue.Queue()
+
+        def session(n: str):
+            cur = conns[n].cursor()
+            while True:
+                cmd = inbox[n].get()
+                if cmd is None:
+                    return
+                try:
+                    if cmd == "api-commit":
+                        conns[n].commit()
+                    else:
+                        cur.execute(cmd)
+                        cur.fetchall()
+                    outbox.put("ok")
+                except Exception as e:  # noqa: BLE001
+                    outbox.put(f"raised {type(e).__name__}")
+
+        ts = {n: threading.Thread(target=session, args=(n,), daemon=True) for n in "ab"}
+        [t.start() for t in ts.values()]
+
+        def do(n: str, cmd: str) -> str:
+            inbox[n].put(cmd)
+            try:
+                return outbox.get(timeout=TURN_TIMEOUT)
+            except queue.Empty:
+                raise common.Infra(f"session {n} did not answer `{cmd}` within {TURN_TIMEOUT}s") from None
+
+        k = spec["key"]
+        for n in spec["begin_order"]:
+            told[f"begin_{n}"] = do(n, "begin")
+        for n in spec["insert_order"]:
+            told[f"insert_{n}"] = do(n, f"insert into shared.s0.pk (k, who) values ({k}, '{n}'), ({k + (10 if n == 'a' else 20)}, '{n}')")
+        for n in spec["commit_order"]:
+            told[f"commit_{n}"] = do(n, "api-commit" if spec["api"] else "commit")
+            if told[f"commit_{n}"] != "ok":
+                do(n, "rollback")
+        for n in "ab":
+            inbox[n].put(None)
+        cur = main.cursor()
+        cur.execute("select k, who from shared.s0.pk")
+        rows = sorted(cur.fetchall())
+    return {"told": told, "rows": [list(r) for r in rows]}
+
+
+def _txconflict_worker(shard):
+    _warm()
+    out = []
+    for spec in shard:
+        r = _forked(_txconflict_round, spec, 180.0)
+        if "ok" not in r:
+            raise common.Infra(f"transaction-conflict round {spec}: {r}")
+        out.append(r["ok"])
+    return out
+
+
+def _check_txconflict(chk, spec, r) -> None:
+    case = {"name": "txconflict", "spec": spec}
+    chk.case(("txconflict", json.dumps(spec, sort_keys=True)), nontrivial=True, sample=case)
+    chk.count("scenario:txconflict")
+    told, k = r["told"], spec["key"]
+    promised = []
+    for n in "ab":
+        if told.get(f"insert_{n}") == "ok" and told.get(f"commit_{n}") == "ok":
+            promised += [[k, n], [k + (10 if n == "a" else 20), n]]
+    found = r["rows"]
+    if sorted(promised) != sorted(found):
+        lost = [x for x in promised if x not in found]
+        extra = [x for x in found if x not in promised]
+        chk.violation(f"two sessions with overlapping transactions inserting the same PRIMARY KEY {k} (begin {spec['begin_order']}, insert "
+                      f"{spec['insert_order']}, commit {spec['commit_order']} via {'conn.commit()' if spec['api'] else 'COMMIT'}): the sessions were "
+                      f"told {told}; the table holds {found} - rows of sessions told 'committed' that are lost: {lost}; rows present although their "
+                      f"session was told the COMMIT failed: {extra} (in every one-at-a-time order the second INSERT of key {k} fails, nothing is lost)",
+                      case, broken="C19 no lost inserts (what a session is told vs the table)")
+
+
 def _stress_statements_round(args) -> dict:
     """several sessions (connections made beforehand, one per thread) each run many multi-row INSERTs into their OWN
     table, free-running with a very short thread switch interval, so that threads are switched inside fakesnow's pure
@@ -485,6 +579,8 @@ def _stress_statements_round(args) -> dict:
         conns = []
         for t in range(nthreads):
             mc.execute(f"create table shared.s0.p{t} (tid int, n int, txt varchar)")
+            mc.execute(f"create table shared.s0.m{t} (tid int, n int, txt varchar)")
+            mc.execute(f"insert into shared.s0.m{t} values ({t}, 0, 'initial')")
             conns.append(snowflake.connector.connect(database="shared", schema="s0"))
         barrier = threading.Barrier(nthreads)
         slow: list[int] = []
@@ -503,6 +599,11 @@ def _stress_statements_round(args) -> dict:
                     got = cur.fetchall()
                     if got != [(nrows,)]:
                         wrong.append(f"session {tid} statement {j}: INSERT of {nrows} rows answered {got!r}")
+                # every session also MERGEs into its own second table (same schema as the others' MERGEs)
+                for j in range(3):
+                    cur.execute(f"merge into m{tid} using (select {j} as n, 'merged by {tid}' as txt) as src on m{tid}.n = src.n "
+                                f"when matched then update set txt = src.txt when not matched then insert (tid, n, txt) values ({tid}, src.n, src.txt)")
+                    cur.fetchall()
             except Exception as e:  # noqa: BLE001
                 errs.append(f"session {tid}: {type(e).__name__}: {str(e)[:120]}")
 
@@ -524,6 +625,11 @@ def _stress_statements_round(args) -> dict:
                 cnt, dist, lo, hi = mc.fetchall()[0]
                 if (cnt, dist, lo, hi) != (nstmts * nrows, nstmts * nrows, t, t):
                     wrong.append(f"table p{t}: {cnt} rows, {dist} distinct, tid {lo}..{hi}; expected {nstmts * nrows} rows of session {t} only")
+                mc.execute(f"select tid, n, txt from shared.s0.m{t} order by n")
+                got = mc.fetchall()
+                want = [(t, j, f"merged by {t}") for j in range(3)]
+                if got != want:
+                    wrong.append(f"table m{t} after session {t}'s three MERGEs: {got}; expected {want}")
     return {"errs": errs, "wrong": wrong, "seed": seed}
 
 
@@ -582,6 +688,11 @@ SCENARIOS = [
     ("comment-vs-show", BASE, [["T1.7"], ["W1"]], [1], TT),
     ("merge-vs-select", BASE + ",T0:1.1", [["G0.1.10.2.20"], ["R0"]], [0], TT),
     ("create-same-table", BASE, [["T1.-", "I1.1.1"], ["T1.-", "I1.2.2"]], [1], TT),
+    # two sessions each running a MERGE (different targets, same schema): the candidates table must be private to each
+    ("two-merges", BASE + ",T1:1.1,T2:1.1", [["G1.1.10.2.20"], ["G2.1.30.3.40"]], [1, 2], TT),
+    ("two-merges-after-insert", BASE + ",T1:1.1,T2:1.1", [["I1.5.5", "G1.1.10.2.20", "R1"], ["I2.6.6", "G2.1.30.3.40", "R2"]], [1, 2], TT),
+    # sessions opened without database/schema (every connection must still get its own engine connection)
+    ("sessions-without-database", BASE + ",T0:9.9", [["N-", "I0.1.1", "R0"], ["N-", "I0.2.2", "R0"]], [0], TT),
 ]
 
 
@@ -651,7 +762,7 @@ def _line(job, trace, locked=True) -> str:
         out, k = [], 0
         for st in p:
             if st[0] == "N":
-                body = st[1:-1] if st[-1] in "ulm" else st[1:]
+                body = st[1:-1] if st[-1] in "ulm" and st != "N-" else st[1:]
                 lock = eps[k] if k < len(eps) else "-"
                 k += 1
                 out.append(f"N{body}/{int(cd)}{int(cs)}/{lock}")
@@ -715,10 +826,20 @@ def run(chk) -> None:
     chk.extra["stress"] = {"rounds": len(res), "threads": 8, "failed_rounds": len(bad)}
     if bad:
         b = bad[0]
-        chk.violation(f"free-running stress (8 threads: connect to the same new database+schema, 5 inserts each into a shared table): "
+        chk.violation(f"free-running stress (8 threads: 4 connect to the same new database+schema in mixed spellings, 4 connect without database; 5 inserts each into a shared table): "
                       f"{len(bad)}/{len(res)} rounds failed; first: errors={b['errs'][:3]} hung={b['hung']} rows={b['total']} "
                       f"distinct={b['distinct']} expected={b['expect']} (seed {b['seed']}; not deterministic)",
                       {"name": "stress", "args": [8, 5, b["seed"]], "nondeterministic": True}, broken="C19 free-running stress (connects + inserts)")
+    # overlapping transactions with the same PRIMARY KEY (deterministic hand-over after every statement)
+    rnd = random.Random(chk.seed + 7)
+    specs = []
+    for i in range(4 if chk.tier == "quick" else 16):
+        first = rnd.choice("ab")
+        specs.append({"key": rnd.randrange(1, 9), "begin_order": rnd.choice(["ab", "ba"]), "insert_order": rnd.choice(["ab", "ba"]),
+                      "commit_order": first + ("b" if first == "a" else "a"), "api": i % 2 == 1})
+    tres = [r for sh in common.shard_map(_txconflict_worker, common.chunks(specs, 4), procs=4) for r in sh]
+    for spec, r in zip([x for sh in common.chunks(specs, 4) for x in sh], tres):
+        _check_txconflict(chk, spec, r)
     # free-running statement stress: thread switches inside fakesnow's own (pure Python) statement processing
     srounds = 4 if chk.tier == "quick" else 24
     sargs = [(4, 5, 30, chk.seed * 1000 + i) for i in range(srounds)]
@@ -728,7 +849,7 @@ def run(chk) -> None:
     chk.extra["statement_stress"] = {"rounds": len(sres), "threads": 4, "failed_rounds": len(sbad)}
     if sbad:
         b = sbad[0]
-        chk.violation(f"free-running statement stress (4 sessions, each 5 INSERTs of 30 rows into its OWN table, switch interval 1e-5): "
+        chk.violation(f"free-running statement stress (4 sessions, each 5 INSERTs of 30 rows and 3 MERGEs into its OWN tables, switch interval 1e-5): "
                       f"{len(sbad)}/{len(sres)} rounds failed; first (seed {b['seed']}): exceptions={b['errs'][:3]} wrong results={b['wrong'][:3]} "
                       f"- in every one-at-a-time order each INSERT answers 30 and each table ends with 150 rows of its own session "
                       f"(non-deterministic stress finding: re-run the replay a few times)",
@@ -747,6 +868,9 @@ def run(chk) -> None:
 
 
 def replay(chk, case) -> None:
+    if case.get("name") == "txconflict":
+        _check_txconflict(chk, case["spec"], _txconflict_worker([case["spec"]])[0])
+        return
     if case.get("name") == "statement-stress":
         bad = 0
         for k in range(5):   # non-deterministic: try a few times
